@@ -89,6 +89,27 @@ def _one(job):
                 if vd != exp:
                     k = next(k for k in sorted(set(vd) | set(exp)) if vd.get(k) != exp.get(k))
                     out["problems"].append(("disable-changes-other-rule:" + k, "with %d rules disabled %s reports %r instead of %r" % (len(D), k, vd.get(k, [])[:3], exp.get(k, [])[:3])))
+            # the same rule list object used again: disable a set, check, enable it again, check (a history, not a fresh load)
+            D = set(r.sample(ids, min(len(ids), r.randint(1, 6))) + r.sample(allids, 40))
+            was = {x.unique_id: x.disable for x in rl.rules}
+            for x in rl.rules:
+                if x.unique_id in D:
+                    x.disable = True
+            rl.clear_violations()
+            rl.check_rules(bAllPhases=True)
+            vd = report(rl)
+            exp = {k: v for k, v in v1.items() if k not in D}
+            if vd != exp:
+                k = next(k for k in sorted(set(vd) | set(exp)) if vd.get(k) != exp.get(k))
+                out["problems"].append(("reuse-disable-differs:" + k, "after disabling %d rules on the rule list that has already checked the file, %s reports %r instead of %r" % (len(D), k, vd.get(k, [])[:3], exp.get(k, [])[:3])))
+            for x in rl.rules:
+                x.disable = was[x.unique_id]
+            rl.clear_violations()
+            rl.check_rules(bAllPhases=True)
+            vr = report(rl)
+            if vr != v1:
+                k = next(k for k in sorted(set(vr) | set(v1)) if vr.get(k) != v1.get(k))
+                out["problems"].append(("reuse-reenable-differs:" + k, "after enabling the rules again %s reports %r instead of %r" % (k, vr.get(k, [])[:3], v1.get(k, [])[:3])))
             o3, rl3 = fresh(shuffle=True)
             rl3.check_rules(bAllPhases=True)
             vs = report(rl3)
@@ -126,7 +147,7 @@ def run(tier):
     ck.sample({"file": os.path.relpath(res[0]["path"], vlib.REPO), "violations": res[0].get("n_viol"), "problems": res[0]["problems"][:2]})
     ck.cov["evaluations"] = len(files) * 6
     ck.cov["distinct_nontrivial"] = len([o for o in res if o.get("n_viol")])
-    ck.cov["rule"] = "corpus file: all-phases check, text / token-class snapshot around it, repeated check, 3 random disabled sets (rules that report on the file + 40 others) compared with the first report minus those rules, one run with the rule list shuffled (order inside every sub-phase changes); per-rule snapshots around analyze on a subset; non-trivial = the file has violations"
+    ck.cov["rule"] = "corpus file: all-phases check, text / token-class snapshot around it, repeated check, 3 random disabled sets (rules that report on the file + 40 others) compared with the first report minus those rules, once more on the rule list object that has already checked the file (disable, check, enable again, check), one run with the rule list shuffled (order inside every sub-phase changes); per-rule snapshots around analyze on a subset; non-trivial = the file has violations"
     ck.assumptions = ["partial: the scheduler theorems (closed form, disable-exact) are proved with analyses taken as functions of the rule; that no analysis writes to the file is explored, not proved"]
     return ck.finish()
 
